@@ -101,6 +101,44 @@ class LinExpr(object):
     def expand(self):
         return self
 
+    # a few more of sympy's read-only predicates, so that code written against sympy expressions keeps working
+    @property
+    def is_zero(self):
+        r = True
+        for co in list(self.c.values()) + [self.k]:
+            z = (co == 0)
+            if z is False:
+                return False
+            if z is not True:
+                r = z if r is True else (r & z)
+        return r if isinstance(r, bool) else bool(r)
+
+    @property
+    def is_number(self):
+        return not self.c
+
+    is_constant = lambda self, *a: not self.c  # noqa: E731
+
+    def coeff(self, v, n=1):
+        return self.c.get(v, 0)
+
+    def subs(self, *args, **kw):
+        rep = dict(args[0]) if len(args) == 1 else {args[0]: args[1]}
+        return self.xreplace(rep)
+
+    def simplify(self, **kw):
+        return self
+
+    def evalf(self, *a, **kw):
+        return self
+
+    def equals(self, other):
+        r = self.__eq__(other)
+        return r if isinstance(r, bool) else bool(r)
+
+    def __bool__(self):
+        return not (self.is_zero is True)
+
     def xreplace(self, rep):
         out = LinExpr(None, self.k)
         for v, co in self.c.items():
